@@ -1,4 +1,5 @@
 import PGM.Proofs.E2EGen
+import PGM.Proofs.E2ESem
 import PGM.Properties.C13G
 import PGM.Properties.C01E
 import PGM.Properties.C04G
@@ -19,19 +20,18 @@ method (`_setup` + the body translated by `tools/py2inf.py`, `Generated/Inferenc
    `potentials = mle(marginals)`, except on the early return `L == 0`, which leaves `marginals` unset likewise.
    `gen_solver_exits_every_loss`: the same at the level of the solver bodies for EVERY loss/gradient function.
    `gen_unset_marginals_query`: with `marginals` unset the generated `project` answers every query from the potentials.
-2. `gen_estimate_roundtrip` (RDA / IG, exact reading): `belief_propagation(mle w) = w` for the `w` these solvers form —
-   `C08.mle_roundtrip_preorder`, its realisability hypothesis discharged through `C08.bp_realisable` /
-   `C08.realisable_combination` along the iterates, its order hypothesis through the generated `__init__`
-   (`self.cliques` is a depth-first preorder of the generated junction tree).
-3. `gen_estimate_answers_valid`: every stored table is `total · marginal / Z` of ONE joint — that of the stored potentials —
-   hence nonnegative, summing to the total, and any two tables agree on shared attributes.
+2. `gen_estimate_answers_valid` (engine MD, parameters read in exp-space, `α = LogOf K`: the oracle is literally the generated
+   `belief_propagation`, whose output cells are the plain values): every stored table is `total · marginal / Z` of ONE joint —
+   that of the stored potentials (C01E `gen_exact_inference_end_to_end`) — hence nonnegative, summing to the total, and any
+   two tables agree on shared attributes.
 
-Scalars.  1 is for every `Scalar` instance (one type for parameters and marginals, as in the float run).  The semantic
-theorems need parameters read in exp-space (`LogOf K`) and marginals as plain numbers (`PlainOf K`): MD is stated at
-`α = LogOf K` (the oracle is literally the generated `belief_propagation`, whose output cells are the plain values);
-RDA / IG average marginal vectors, so they are stated at `α = PlainOf K` with the exponential made explicit: `expo` reads a
-parameter vector of plain numbers as exp-space potentials, `logo` writes exp-space potentials back (`np.exp` / `np.log`
-cell by cell; contracts `Reading`).
+NOT proved here (open): for RDA / IG the semantic half "`belief_propagation(mle w) = w` for the `w` these solvers form".  The
+pieces are in place — `E2EGen.rda_inv` / `ig_inv` transport any property `R` of marginal vectors that the oracle's answers
+have and the averaging step preserves to the returned `w` (with `R` = `Coherent.Realisable` this is `C08.bp_realisable` +
+`C08.realisable_combination`, the weights being `2/(t+1)` resp. `igA`), and `C08.mle_roundtrip_preorder` applies to
+`self.cliques` of the generated `__init__` (`Admissible.dfs_cliques`) — but RDA / IG average PLAIN marginal vectors while
+the parameters are read in exp-space, so the run needs ONE scalar type carrying both readings (with `-inf`), for which
+neither `realisable_combination` nor the C01 theorems are proved yet.
 -/
 namespace PGM.C08E
 open PGM PGM.JT PGM.Sem PGM.EstG PGM.EstGen PGM.C01E PGM.C13G
@@ -267,5 +267,100 @@ theorem gen_unset_marginals_query {β : Type} [Scalar β] (g : GM α) (hm : g.ma
   rw [hm]; exact C02.GMQ.gen_project_none toPlain greedy g.domain g.cliques g.potentials g.total b attrs
 
 end headline
+
+/-! ## 2. every stored table is `total · marginal / Z` of ONE joint (engine MD, exp-space reading of the parameters) -/
+section valid
+variable {K : Type} [Field K] [LinearOrder K] [IsStrictOrderedRing K] {V Cb : Type}
+
+/-- **THE ANSWERS OF THE RETURNED MODEL ARE ONE VALID DISTRIBUTION (engine MD, generated code end to end).**  At the
+exp-space reading `LogOf K` the oracle is literally the generated `belief_propagation`, whose output cells are the plain
+values.  For the object `g` the generated `estimate(engine='MD')` returns — every iteration count, every exit on which
+`marginals` is stored, every admissible behaviour of the library contracts — with parameters that are nonnegative tables over
+its cliques (`hpots`) and `Z ≠ 0`: there is ONE joint, the product of the stored potentials, such that
+
+1. every stored clique table is `total · marginal_c / Z` of it (C01E `gen_exact_inference_end_to_end`), hence
+2. nonnegative (for a nonnegative total),
+3. summing to the model total, and
+4. any two stored tables, summed down to any attribute tuple `A` both contain, agree (both are `total · marginal_A / Z`). -/
+theorem gen_estimate_answers_valid (nx : Nx) (estT : List (Loss.Meas (LogOf K)) → LogOf K)
+    (logf : Factor (LogOf K) → Factor (LogOf K)) (topEigs : List (Loss.Meas (LogOf K)) → List (LogOf K))
+    (logger : V) (cbVal : Option Cb → V) (s : Est (LogOf K)) (a : Args (LogOf K) V Cb) (hMD : a.engine = "MD")
+    (hd : s.cfg.domain.WF) (hne : s.cfg.domain.attrs ≠ [])
+    (hin : ∀ c ∈ inCliques s.cfg (measOf s a), c.Nodup ∧ ∀ x ∈ c, x ∈ s.cfg.domain.attrs)
+    (hadm : Admissible nx s.cfg.domain (inCliques s.cfg (measOf s a)) (modeOf s.cfg.elim_order)) :
+    ∃ g, (estimateG (gmC nx) estT (bpO nx) (mleO logf nx) topEigs logger cbVal s a).2.2 = some g ∧
+      g.domain = s.cfg.domain ∧
+      ∀ m, g.marginals = some m → PotsOK g.domain g.cliques g.potentials → partition g.domain g.potentials ≠ 0 →
+        (∀ c ∈ g.cliques, ∀ σ, g.domain.Valid σ →
+          ((m.get c).sem σ).v = g.total.v * marginal g.domain g.potentials c σ / partition g.domain g.potentials) ∧
+        (0 ≤ g.total.v → ∀ c ∈ g.cliques, ∀ σ, g.domain.Valid σ → 0 ≤ ((m.get c).sem σ).v) ∧
+        ((∀ p ∈ g.domain, 0 < p.2) → ∀ c ∈ g.cliques,
+          sumOver g.domain c (fun _ => 0) (fun τ => ((m.get c).sem τ).v) = g.total.v) ∧
+        (∀ c1 ∈ g.cliques, ∀ c2 ∈ g.cliques, ∀ A : List Attr, (∀ x ∈ A, x ∈ c1) → (∀ x ∈ A, x ∈ c2) →
+          ∀ σ, g.domain.Valid σ →
+          sumOver g.domain (c1.filter (fun x => !A.contains x)) σ (fun τ => ((m.get c1).sem τ).v)
+            = sumOver g.domain (c2.filter (fun x => !A.contains x)) σ (fun τ => ((m.get c2).sem τ).v)) := by
+  obtain ⟨g, h1, _, _, hcq, htot, ps⟩ := gen_estimate_returns_coherent_pair nx estT logf topEigs logger cbVal s a (Or.inl hMD)
+  have hdom : g.domain = s.cfg.domain := by rw [ps.same_object]; rfl
+  have hinc : g.inCliques = inCliques s.cfg (measOf s a) := by rw [ps.same_object]; rfl
+  have helim : g.elim = s.cfg.elim_order := by rw [ps.same_object]; rfl
+  refine ⟨g, h1, hdom, fun m hm hpots hZ => ?_⟩
+  have hbp : m = bpO nx g g.potentials := by
+    rcases ps.md hMD with ⟨_, hnone, _⟩ | ⟨_, hsome⟩
+    · rw [hnone] at hm; cases hm
+    · rw [hm] at hsome; exact Option.some.inj hsome
+  have hd' : g.domain.WF := hdom ▸ hd
+  have hne' : g.domain.attrs ≠ [] := hdom ▸ hne
+  have hin' : ∀ c ∈ g.inCliques, c.Nodup ∧ ∀ x ∈ c, x ∈ g.domain.attrs := by rw [hinc, hdom]; exact hin
+  have hadm' : Admissible nx g.domain g.inCliques (modeOf g.elim) := by rw [hinc, hdom, helim]; exact hadm
+  have hcliques := (gen_init_cliques_ok nx g.domain g.inCliques g.total (modeOf g.elim) hd' hne' hin' hadm').2.2
+  have key : ∀ c ∈ g.cliques, ∀ σ, g.domain.Valid σ →
+      ((m.get c).sem σ).v = g.total.v * marginal g.domain g.potentials c σ / partition g.domain g.potentials := by
+    intro c hc σ hσ
+    rw [hbp]
+    exact (gen_exact_inference_end_to_end nx g.domain g.inCliques (modeOf g.elim) g.total hd' hne' hin' hadm' g.potentials
+      (hcq ▸ hpots) hZ c (hcq ▸ hc) σ hσ).2
+  have hcl : ∀ c ∈ g.cliques, c.Nodup ∧ ∀ x ∈ c, x ∈ g.domain.attrs := fun c hc => hcliques c (hcq ▸ hc)
+  refine ⟨key, fun hT c hc σ hσ => ?_, fun hsizes c hc => ?_, fun c1 hc1 c2 hc2 A hA1 hA2 σ hσ => ?_⟩
+  · rw [key c hc σ hσ]
+    exact div_nonneg (mul_nonneg hT (Bd.marginal_nonneg _ _ _ _ hpots.nonneg)) (Bd.partition_nonneg _ _ hpots.nonneg)
+  · rw [sumOver_congr_valid g.domain hd' c (fun _ => 0) _ _ (fun p hp => hsizes p hp) (fun τ hτ => key c hc τ hτ),
+      E2ESem.tables_sum g.domain hd' g.potentials _ _ c (hcl c hc).1 (hcl c hc).2]
+    field_simp
+  · rw [sumOver_congr_valid g.domain hd' _ σ _ _ hσ (fun τ hτ => key c1 hc1 τ hτ),
+      sumOver_congr_valid g.domain hd' _ σ _ _ hσ (fun τ hτ => key c2 hc2 τ hτ),
+      E2ESem.tables_agree g.domain hd' g.potentials _ _ c1 A (hcl c1 hc1).1 (hcl c1 hc1).2 hA1 σ,
+      E2ESem.tables_agree g.domain hd' g.potentials _ _ c2 A (hcl c2 hc2).1 (hcl c2 hc2).2 hA2 σ]
+
+end valid
+
+/-! ## non-vacuity: an estimator over the domain of C01E's example, two measured cliques, `elim_order=["a","c","b"]` -/
+section Example
+open PGM.C01 (exD exCl)
+
+/-- `FactoredInference(exD, iters=1, elim_order=["a","c","b"])`, exp-space reading -/
+def exEst : Est (LogOf ℚ) := ⟨⟨exD, Metric.L2, false, 1, false, some exElim, []⟩, none, none⟩
+
+/-- `estimate([(None, y, 1, ['a','b']), (None, y', 1, ('b','c'))], total=100, engine='MD')` -/
+def exArgs : Args (LogOf ℚ) Nat Nat :=
+  ⟨[⟨none, [], ⟨1⟩, .list ["a", "b"]⟩, ⟨none, [], ⟨1⟩, .tuple ["b", "c"]⟩], some ⟨100⟩, "MD", none, []⟩
+
+/-- the clique list `_setup` hands to `GraphicalModel(..)` is the one of C01E's example … -/
+theorem ex_inCliques : inCliques exEst.cfg (measOf exEst exArgs) = exCl := by decide
+
+/-- … so the structural hypotheses of `gen_estimate_answers_valid` / `gen_estimate_zeros_end_to_end` hold: well-formed
+non-empty domain, measured cliques inside it, an admissible behaviour of every library contract -/
+example : ValidEngine exArgs.engine ∧ exEst.cfg.domain.WF ∧ exEst.cfg.domain.attrs ≠ [] ∧
+    (∀ c ∈ inCliques exEst.cfg (measOf exEst exArgs), c.Nodup ∧ ∀ x ∈ c, x ∈ exEst.cfg.domain.attrs) ∧
+    Admissible exNx exEst.cfg.domain (inCliques exEst.cfg (measOf exEst exArgs)) (modeOf exEst.cfg.elim_order) := by
+  refine ⟨Or.inl rfl, by decide, by decide, ?_, ?_⟩
+  · rw [ex_inCliques]; decide
+  · rw [ex_inCliques]; exact ex_admissible
+
+/-- the model the generated `_setup` builds on it has the two cliques of the generated `__init__` -/
+example : (freshGM (gmC exNx) (fun _ => (⟨1⟩ : LogOf ℚ)) exEst exArgs).cliques = [["a", "b"], ["b", "c"]] := by
+  decide +kernel
+
+end Example
 
 end PGM.C08E
